@@ -156,6 +156,34 @@ def run(chk, tier):
         if all(STRUCTURAL.search(p) for p in paths):
             chk.ok("R01.4", "structural|" + name, STRUCTURAL_WHY if nscc < 3 else None)
             continue
+        # a structural recursion may go through pass-through helpers: functions that hand (parts of) their own parameters on and
+        # never form a cycle among themselves - the measure (size of the owned value) cannot grow across them
+        helpers = [c for c in comp if not STRUCTURAL.search(F.bodies[c].path)]
+        if len(helpers) < len(comp):
+            import mirq
+            hs = set(helpers)
+
+            def passes_through(c):
+                b = F.bodies[c]
+                q = mirq.BodyQ(b)
+                for y in cg.edges[c]:
+                    if y not in comp_set:
+                        continue
+                    for (blk, _l) in cg.sites[(c, y)]:
+                        t = dict(b.calls()).get(blk)
+                        args = (t or {}).get("args", [])
+                        if not args:
+                            return False
+                        for a in args:
+                            if isinstance(a, dict) and "const" in a:
+                                continue
+                            if q.root_param(a) is None:
+                                return False
+                return True
+            h_cyc = [cc for cc in cg.sccs(hs) if len(cc) > 1 or cc[0] in (cg.edges.get(cc[0], set()) & hs)]
+            if not h_cyc and all(passes_through(c) for c in helpers):
+                chk.ok("R01.4", "structural|" + name, "structural recursion through pass-through helper(s) %s: they hand their own parameters on and do not call each other in a cycle" % sorted(lib.short(F.bodies[c].path) for c in helpers))
+                continue
         # guard bodies: call a guard primitive in a block that dominates every in-SCC call block
         guards = set()
         for c in comp:
